@@ -27,7 +27,9 @@ Enumerated space
                    is the tier's knob
     hidden targets plain queries: 0..3 hidden ORDER BY expressions, mixed with references to visible targets
                    (index, alias); grouped queries: (hidden GROUP BY keys g, HAVING h, hidden ORDER BY
-                   aggregates o) for all g <= 2, h <= 1, o <= 2 with g + h + o <= 3
+                   aggregates o) for all g <= 2, h <= 1, o <= 2 with g + h + o <= 3 (quick: lists of 4 targets
+                   take every other configuration, alternating with the list, so each configuration still meets
+                   half of the 81 four-target sequences)
     extras         DISTINCT, WHERE, LIMIT rotate; duplicate names (same column twice, same alias twice, same
                    expression twice) without positional ORDER BY
     `*`            on every table of a beancount connection (postings, entries, the typed directive tables,
@@ -388,7 +390,7 @@ def build_grouped(kinds, rot, g, h, o):
     return b
 
 
-def named_statements(nrot_plain, nrot_grouped, seed=0):
+def named_statements(nrot_plain, nrot_grouped, seed=0, thin=False):
     """('named', label, text, targets, nhidden).  The seed shifts which menu entry / spelling meets which
     kind sequence; the set of kind sequences x hidden configurations does not depend on it."""
     seqs = [''.join(s) for n in (1, 2, 3, 4) for s in itertools.product('ACE', repeat=n)]
@@ -401,9 +403,11 @@ def named_statements(nrot_plain, nrot_grouped, seed=0):
                 b = build_plain(kinds, rot, nh, order_visible=(rot % 3 == 0), extras=extras)
                 yield ('named', ('plain', kinds, nh), b.text(), b.targets, nh)
         for r in range(nrot_grouped):
-            for g, h, o in itertools.product((0, 1, 2), (0, 1), (0, 1, 2)):
+            for ci, (g, h, o) in enumerate(itertools.product((0, 1, 2), (0, 1), (0, 1, 2))):
                 if g + h + o > 3:
                     continue
+                if thin and len(kinds) == 4 and (ci + si) % 2:
+                    continue          # quick: length-4 lists take every other configuration, alternating with the list
                 rot += 1
                 b = build_grouped(kinds, rot, g, h, o)
                 if b is not None:
@@ -649,7 +653,7 @@ def unjson_targets(spec):
 def units(tier, seed=0):
     thorough = tier == 'thorough'
     conn = connection()
-    yield from named_statements(*((2, 1) if not thorough else (20, 6)), seed)
+    yield from named_statements(*((1, 1) if not thorough else (20, 6)), seed, thin=not thorough)
     yield from duplicate_statements()
     yield from wildcard_statements(conn, thorough)
     yield from table_kind_statements(conn, seed)
@@ -718,7 +722,7 @@ def run(ctx):
                 'column, expression} of length 1..4 x hidden-target configurations x spelling rotations, duplicates, `*` on every table kind, '
                 'named targets on every table kind; distinct & non-trivial = distinct statement texts (every statement has >= 1 target)',
         'exhaustive': True,
-        'bound': f'target lists of 1..4 targets; 0..3 hidden targets; spelling rotations plain/grouped = {(2, 1) if ctx.quick else (20, 6)}; '
+        'bound': f'target lists of 1..4 targets; 0..3 hidden targets; spelling rotations plain/grouped = {(1, 1) if ctx.quick else (20, 6)}; '
                  f'rotation offset from VERIF_SEED = {ctx.seed}',
         'kind_sequences_visited': len(s['kind_sequences']),
         'targets_by_kind': {k[8:-1]: v for k, v in sorted(n.items()) if k.startswith('targets[')},
